@@ -11,6 +11,12 @@ def replay_obligation(r):
 
 
 def replay_payload(payload):
-    r = dict(name=payload['obligation'], function=payload['function'], model=payload['model'],
-             family=payload.get('family'))
+    fam = payload.get('family')
+    if fam is None:
+        # replay files written before the family was recorded: the printers family is recognised by its functions
+        fn = (payload.get('function') or '').split('.')[-1]
+        if fn in ('pretty_bracketable_iterable', 'pretty_dict', 'pretty_float', 'pretty_int', 'pretty_bool', 'general_identifier',
+                  'pretty_deque', 'pretty_defaultdict', 'pretty_ordereddict', 'pretty_counter', 'pretty_baseexception'):
+            fam = 'printers'
+    r = dict(name=payload['obligation'], function=payload['function'], model=payload['model'], family=fam)
     return replay_obligation(r)
